@@ -2436,6 +2436,13 @@ func c30Case(c *Ctx, i int, r *rand.Rand) {
 				c30Report(c, i, pr, cl)
 			}
 		}
+		if !found && run.res.Rejected {
+			if m := c30ValRebindRe.FindStringSubmatch(run.other); m != nil && m[1] != "_" {
+				// the program holds a `val` declaration probe that binds one name twice (generator artefact, see c30Outcome)
+				c.Count("programs_dropped_val_pattern_rebinds_a_name", 1)
+				return
+			}
+		}
 		if !found {
 			what := "panic:" + run.res.PanicPhase + ":" + panicSite1(run.res.PanicStack)
 			if run.res.Rejected {
